@@ -255,6 +255,11 @@ _public_ int m_mod_ps_subscribe(m_mod_t *mod, const char *topic, m_src_flags fla
                     old_sub->userptr = userptr;
                     return 0;
                 }
+                /*
+                 * Different flags: drop the old subscription before storing the new one,
+                 * as the map is keyed by the (possibly dup'd) topic owned by the old subscription.
+                 */
+                m_map_remove(mod->subscriptions, topic);
             }
         }
 
